@@ -11,6 +11,7 @@
 -/
 import IvpModel.Proofs.CtlRk
 import IvpModel.Proofs.ScaledContinuation
+import IvpModel.Proofs.NoopModified
 
 /-!
   * the doubling clause ("for a linear homogeneous problem, doubling the state doubles everything that follows"), session 3c:
@@ -44,4 +45,15 @@ theorem c19_scaled_continuation_rk4 {σ : Type} {n : Nat} (c : K) (hc : c ≠ 0)
     (hf : ∀ j t y, f j t (vsmul c y) = vsmul c (f j t y)) (ob : Ctl.Obs σ K n) (fuel : Nat) (s : Ctl.R4State σ K n) :
     Ctl.rk4Loop P f (Ctl.sObs c ob) fuel (Ctl.sS4 c s) = (Ctl.rk4Loop P f ob fuel s).map (Ctl.sResult c) :=
   Ctl.rk4_scaled_continuation c hc P f hf ob fuel s
+
+/-- **the no-op clause** ("an unchanged state is a no-op"): for a right-hand side that is a function of (t, y), continuing after
+    `ModifiedSolution` with the state unchanged — derivative re-evaluated at the same point, one more evaluation on the meter — gives
+    the run that `Continue` gives: same statuses, step points, states, step sizes and step counters, at every fuel (DOPRI5 / DOP853
+    skeleton, any kernel; the two runs differ in the log, the call count and `evals.ode` only, which the loop never reads:
+    `Ctl.hIter_meq`). -/
+theorem c19_noop_modified {σ : Type} {n : Nat} (P : Ctl.HParams K n) (Kn : Ctl.HKernel K n) (f : Ctl.Rhs K n) (hf : Ctl.PureRhs f)
+    (ob : Ctl.Obs σ K n) (s : Ctl.HState σ K n) (hk : s.k1 = f 0 s.x s.y) (fuel : Nat) :
+    Ctl.OptREq (Ctl.hLoop P Kn f ob fuel s)
+      (Ctl.hLoop P Kn f ob fuel { s with k1 := f s.m.ncalls s.x s.y, m := s.m.refresh s.x s.y }) :=
+  Ctl.noop_modified P Kn f hf ob s hk fuel
 end
